@@ -47,6 +47,7 @@ META = dict(
 )
 META["text"] += ' Control dependence counts: a value returned under a data-dependent branch, and everything computed after an early return under one, depends on the whole sample. (R6, N) no method keeps state between calls (see C01.R8).'
 META["text"] += " (R7 = C12.R7) no test writes into the caller's sample."
+META["text"] += " (R8, N, whole package) nothing outside the constructor writes an attribute of an assertion's test object, except `u` at the three confirmed sites: a configuration value derived from the observations (an error rate 'learned' from the sample, a mean left behind by sample-size planning) makes every entry depend on the whole sample."
 
 
 from .. import nnm_rules  # noqa: E402
@@ -55,6 +56,8 @@ from .. import nnm_rules  # noqa: E402
 def run(chk):
     idx = chk.idx
     nnm_rules.rule_stateless(chk, "C05.R6")  # first: its refutations stand even if a later rule cannot read the code
+    from .. import aud as _aud
+    _aud.test_config_writers(chk, "C05.R8", "non-anticipation is a statement about a test whose configuration is fixed before the sample is seen")
     # R7 = C12.R7: no test writes into the caller's sample (a padded / shifted sample left behind makes the next evaluation of
     # a prefix of the same array run on other numbers than the first)
     from . import c12 as _c12
